@@ -21,7 +21,7 @@ RULE = ("focal_stats / apply: every 0/1 kernel of the listed shapes (rank = bit 
         "of the listed family (generic, one NaN at every position, NaN blocks giving all-NaN windows, integer) x "
         "the seven statistics in one list (rotated by the kernel index), every kernel x (quick: 5 rasters, thorough: "
         "every raster) x every statistic selection (7 names alone + 6 lists), every kernel x every raster x every "
-        "reducer program (count of non-NaN, sum of squares, value at window position (i,j) for every (i,j) of the "
+        "reducer program (count of non-NaN, the same followed by overwriting the window it was handed, sum of squares, value at window position (i,j) for every (i,j) of the "
         "kernel shape); mean: every raster of the "
         "family / every grid over the alphabet x passes {0,1,2,3} x excludes {[nan],[0],[nan,3.0]}; convolution_2d: "
         "every odd shape <= 5x5 x 4 all-distinct weight patterns + 3 patterns with all-zero outer rows / columns / ring x rasters; hotspots: kernels x rasters with a "
@@ -68,7 +68,7 @@ BOUNDS = {
         "stats": {"every kernel x every raster": "the seven names in one list, rotated by the kernel index",
                   "every kernel x 5 rasters (generic, nan@(1,2), nan@(0,0), nanblock[0:3,0:3], only(1,2))":
                       {"1x3,3x1,3x3": [list(s) for s in SELECTIONS], "3x5,5x3": [list(s) for s in SELECTIONS[:8]]}},
-        "reducers": ["count", "sumsq", "pick(i,j) for every window position"],
+        "reducers": ["count", "count_poison (counts, then overwrites its window)", "sumsq", "pick(i,j) for every window position"],
         "mean": {"passes": list(PASSES), "excludes": ["[nan]", "[0]", "[nan,3.0]"],
                  "grids": ["3x3 over {nan,0,3}", "2x3 over {nan,0,3,5}", "2x3 over {0,3,5} int64",
                            "4x5 family + value placements"]},
@@ -82,7 +82,7 @@ BOUNDS = {
                       "the seven names in one list, rotated by the kernel index",
                   "every kernel (3x5/5x3: sparse) x the 26 quick rasters":
                       {"1x3,3x1,3x3": [list(s) for s in SELECTIONS], "3x5,5x3": [list(s) for s in SELECTIONS[:8]]}},
-        "reducers": ["count", "sumsq", "pick(i,j) for every window position"],
+        "reducers": ["count", "count_poison (counts, then overwrites its window)", "sumsq", "pick(i,j) for every window position"],
         "mean": {"passes": list(PASSES), "excludes": ["[nan]", "[0]", "[nan,3.0]"],
                  "grids": ["3x3 over {nan,0,3}", "2x3 over {nan,0,3,5}", "2x3 over {0,3,5} int64", "3x3 over {nan,0,3,5}",
                            "2x4 over {nan,0,3,5}",
@@ -234,6 +234,18 @@ def _sumsq(window):
     return s
 
 
+def _count_poison(window):
+    """count of non-NaN, then the window is overwritten: a reducer owns the window it is handed (the next cell must get a
+    fresh one, with every position outside the kernel NaN again)."""
+    n = 0
+    for i in range(window.shape[0]):
+        for j in range(window.shape[1]):
+            if not np.isnan(window[i, j]):
+                n += 1
+            window[i, j] = 1.0
+    return n
+
+
 def reducer(name):
     """-> (jitted function for the API, plain Python twin for the reference window)."""
     if name not in _REDUCERS:
@@ -241,6 +253,9 @@ def reducer(name):
         jit = numba.jit(nopython=True, nogil=True)
         if name == "count":
             py = _count
+        elif name == "count_poison":         # the reference twin does not mutate (reference windows are shared)
+            _REDUCERS[name] = (jit(_count_poison), _count)
+            return _REDUCERS[name]
         elif name == "sumsq":
             py = _sumsq
         else:
@@ -251,7 +266,7 @@ def reducer(name):
 
 
 def reducer_names(shape):
-    return ["count", "sumsq"] + ["pick(%d,%d)" % (i, j) for i in range(shape[0]) for j in range(shape[1])]
+    return ["count", "count_poison", "sumsq"] + ["pick(%d,%d)" % (i, j) for i in range(shape[0]) for j in range(shape[1])]
 
 
 # ------------------------------------------------------------------------------------------------
@@ -784,7 +799,7 @@ def build(tier):
                                   tuple(reducer_names(shape))))
     sp.append(KernelSpace("stats_3x3_i8", "stats", (3, 3), masks_all(9), int_family((4, 5)), all7, rotate=True, nshards=4))
     sp.append(KernelSpace("apply_3x3_i8", "apply", (3, 3), masks_all(9), int_family((4, 5)),
-                          ("count", "sumsq", "pick(0,1)", "pick(2,0)")))
+                          ("count", "count_poison", "sumsq", "pick(0,1)", "pick(2,0)")))
     sp.append(DtypeSpace("stats_3x3_dtypes", (3, 3), masks_all(9)))
     sp.append(MeanSpace("mean_4x5", rasters=mean_family()))
     sp.append(MeanSpace("mean_3x3_nan03", gridspec=((3, 3), (NAN, 0.0, 3.0), "f8")))
